@@ -36,6 +36,7 @@ PROPS = {
     'C06': dict(streams=['midix', 'write']),
     'C07': dict(streams=['ticks', 'write']),
     'C08': dict(streams=['midix', 'write']),
+    'C11': dict(streams=['variants', 'lex']),
     'C13': dict(streams=['scale', 'diatonic']),
     'C14': dict(streams=['chain']),
     'C15': dict(streams=['note', 'describe']),
@@ -241,7 +242,13 @@ def run_stream(name, harness, crd, scratch, seed, tier):
         if canon(a) != canon(b):
             diffs.append(dict(stream=name, request=r, real=a, model=b))
     distinct = len(set(x for x in reqs if x))
-    return dict(name=name, cases=n, distinct=distinct, diffs=diffs, stats=stats, samples=samples)
+    oracle = []
+    opath = os.path.join(out, name + '.oracle')
+    if os.path.exists(opath):
+        for l in open(opath, encoding='utf-8'):
+            if l.strip():
+                oracle.append(json.loads(l))
+    return dict(name=name, cases=n, distinct=distinct, diffs=diffs, stats=stats, samples=samples, oracle=oracle)
 
 # ---------------------------------------------------------------------------------------------------
 # known findings
@@ -350,11 +357,25 @@ def check_property(pid, tier, seed):
             problems.append(dict(kind='forbidden-construct', detail=h))
         # correspondence + oracles on real observations
         if os.path.exists(DRIVER):
+            import smfdec
             for sname in cfg.get('streams', []):
                 st = run_stream(sname, harness, crd, scratch, seed, tier)
                 streams.append(st)
-                for d in st['diffs'][:50]:
-                    problems.append(dict(kind='tie', detail=d))
+                # property violations the harness observed directly on the real code (real-vs-real oracles)
+                for o in st.get('oracle', []):
+                    if o.get('property') in (None, pid):
+                        violations.append(dict(what=o.get('what', ''), input=o.get('input'), stream=sname, observed=o.get('observed')))
+                # a disagreement between the real code and the model: the model is proved to meet the specification,
+                # so a difference that survives the property's projection is a concrete failing input
+                for d in st['diffs'][:200]:
+                    ra, mo = smfdec.project(pid, d['real']), smfdec.project(pid, d['model'])
+                    if ra != mo:
+                        violations.append(dict(what='real crd differs from the verified model on the observation %s talks about' % pid,
+                                               input=d['request'][:4000], stream=sname,
+                                               observed=dict(real=str(ra)[:1500], model=str(mo)[:1500])))
+                    else:
+                        problems.append(dict(kind='tie', detail=dict(stream=sname, request=d['request'][:600], real=d['real'][:300], model=d['model'][:300],
+                                                                     note='difference not visible in the projection of ' + pid)))
             for fn in cfg.get('oracles', []):
                 res = fn(dict(crd=crd, harness=harness, scratch=scratch, seed=seed, tier=tier, driver=DRIVER, streams=streams))
                 streams.append(res['stream'])
